@@ -3,18 +3,20 @@
 (* stimulus generation.                                                     *)
 EXTENDS Replication, TLC
 
-CONSTANTS MaxMsgs, MaxElect, MaxCrash, MaxIsrOps, MaxRejects, Policies, UseCheckpoint, IgnoreTaints
+CONSTANTS MaxMsgs, MaxElect, MaxCrash, MaxIsrOps, MaxRejects, Policies, UseCheckpoint, IgnoreTaints, Batch
 VARIABLES last, nMsgs, nElect, nCrash, nIsr, nRej
 mcvars == <<vars, last, nMsgs, nElect, nCrash, nIsr, nRej>>
 budget == <<nMsgs, nElect, nCrash, nIsr, nRej>>
 
 MCInit == Init /\ last = [a |-> "Init"] /\ nMsgs = 0 /\ nElect = 0 /\ nCrash = 0 /\ nIsr = 0 /\ nRej = 0
 
-MCPublish(pol) ==
-  /\ nMsgs < MaxMsgs
-  /\ DoPublish(<<[v |-> nMsgs + 1, pol |-> pol]>>)
-  /\ last' = [a |-> "Publish", recs |-> <<[v |-> nMsgs + 1, pol |-> pol]>>]
-  /\ nMsgs' = nMsgs + 1 /\ UNCHANGED <<nElect, nCrash, nIsr, nRej>>
+\* one batch of 1..Batch messages with any mix of ack policies
+MCPublish(pols) ==
+  LET recs == [i \in 1..Len(pols) |-> [v |-> nMsgs + i, pol |-> pols[i]]] IN
+  /\ nMsgs + Len(pols) <= MaxMsgs
+  /\ DoPublish(recs)
+  /\ last' = [a |-> "Publish", recs |-> recs]
+  /\ nMsgs' = nMsgs + Len(pols) /\ UNCHANGED <<nElect, nCrash, nIsr, nRej>>
 MCReject ==
   /\ nRej < MaxRejects
   /\ DoPublishRejected(100 + nRej)
@@ -34,7 +36,7 @@ MCElect(n, reach) == nElect < MaxElect /\ DoElect(n, reach) /\ last' = [a |-> "E
                      /\ nElect' = nElect + 1 /\ UNCHANGED <<nMsgs, nCrash, nIsr, nRej>>
 
 MCNext ==
-  \/ \E pol \in Policies : MCPublish(pol)
+  \/ \E n \in 1..Batch : \E pols \in [1..n -> Policies] : MCPublish(pols)
   \/ MCReject
   \/ \E f \in R, late \in BOOLEAN : MCFetch(f, late)
   \/ \E f \in R : MCLagExpire(f) \/ MCShrink(f) \/ MCExpand(f) \/ MCCheckpoint(f) \/ MCCrash(f)
@@ -68,6 +70,10 @@ NoBad_StaleIsrOffset == ~(taint = {"stale-isr-offset"} /\ Bad)
 \* an ALL-policy ack just emitted although some in-sync member lacks the record
 AckBad == \E a \in obs.acks : a.pol = "ALL" /\
             (~(a.off < Len(log[Leader])) \/ \E r \in meta.isr : ~Has(r, a.off, log[Leader][a.off + 1]))
+NoBadAck_EpochConvention == ~(taint = {"epoch-convention"} /\ AckBad)
+NoBadAck_EpochGap == ~(taint = {"epoch-gap"} /\ AckBad)
+NoBadAck_HWFallback == ~(taint = {"hw-fallback"} /\ AckBad)
+NoBadAck_ExpandLagging == ~(taint = {"expand-lagging"} /\ AckBad)
 NoBadAck_StaleIsrOffset == ~(taint = {"stale-isr-offset"} /\ AckBad)
 
 MCView == <<meta, up, role, log, hw, hwDisk, ec, isrOff, pend, caught, committed, nacked, taint, nMsgs, nElect, nCrash, nIsr, nRej>>
